@@ -441,9 +441,23 @@ where
     LM: MatchLiteral,
     <T as FromStr>::Err: Debug,
 {
+    // Applying a commutative operator between two numbers earlier than its left neighbors
+    // is only valid if the operator it overtakes is the same operator.
+    let overtakes_only_same_op = |bin_op_idx: usize| {
+        let bin_op = &bin_ops[bin_op_idx];
+        bin_ops[..bin_op_idx]
+            .iter()
+            .rev()
+            .find(|left| left.op.prio <= bin_op.op.prio)
+            .map(|left| left.op.prio < bin_op.op.prio || left.idx == bin_op.idx)
+            .unwrap_or(true)
+    };
     let prio_increase =
         |bin_op_node_idx: usize| match (&nodes[bin_op_node_idx], &nodes[bin_op_node_idx + 1]) {
-            (DeepNode::Num(_), DeepNode::Num(_)) if bin_ops[bin_op_node_idx].op.is_commutative => {
+            (DeepNode::Num(_), DeepNode::Num(_))
+                if bin_ops[bin_op_node_idx].op.is_commutative
+                    && overtakes_only_same_op(bin_op_node_idx) =>
+            {
                 let prio_inc = 5;
                 &bin_ops[bin_op_node_idx].op.prio * 10 + prio_inc
             }
